@@ -1,6 +1,6 @@
 //! C10: a real `Scheduler` with a virtual clock.
 //! ops: sub <prog> <prio> | pass | adv <ns> | cancel <k> | res <k>
-//!   prog steps: S | U<ts> | Y<ts> (hooked-wait pattern: syscall Suspend(ts) + until(ts), then back to running) | P<k> | R<r>
+//!   prog steps: K<j> (the body asks to cancel coroutine j, possibly itself) | S | U<ts> | Y<ts> (hooked-wait pattern: syscall Suspend(ts) + until(ts), then back to running) | P<k> | R<r>
 //! outs: sub → `id<k>` ; pass → `resumed=<k.k.k> results=<k:Ok(r),k:Err(m)>` ; others → `-`
 use crate::rng::Rng;
 use open_coroutine_core::common::constants::{SyscallName, SyscallState};
@@ -22,12 +22,13 @@ pub fn gen(r: &mut Rng, thorough: bool) -> String {
                 let k = r.range(0, 5);
                 let mut steps: Vec<String> = Vec::new();
                 for _ in 0..k {
+                    if r.chance(1, 7) { steps.push(format!("K{}", r.below(nsub + 2))); }
                     ts_seq += 1;
                     // wake-up times are unique (BinaryHeap order among equal keys is unspecified)
                     let ts = now_est + r.below(400) * 64 + ts_seq % 64 + (if r.chance(1, 6) { 0 } else { 1 });
                     steps.push(match r.below(6) { 0 | 1 => "S".into(), 2 | 3 => format!("U{}", ts * 64 + ts_seq % 64), 4 => format!("Y{}", ts * 64 + ts_seq % 64), _ => "S".into() });
                 }
-                steps.push(match r.below(6) { 0 => format!("P{}", r.below(2)), _ => format!("R{}", r.below(90)) });
+                steps.push(match r.below(6) { 0 => format!("P{}", *r.pick(&[0u64, 1, 1128, 1200])), _ => format!("R{}", r.below(90)) });
                 let prio = *r.pick(&[0i64, 0, 0, 1, -1, 5, i64::MIN, i64::MAX]);
                 ops.push(format!("sub {} {}", steps.join(","), prio));
                 nsub += 1;
@@ -50,6 +51,7 @@ pub fn exec(body: &str, emit: &mut dyn FnMut(&str)) {
     let sched: &'static mut Scheduler<'static> = Box::leak(Box::new(Scheduler::new("verif-sched".into(), 128 * 1024)));
     let resumed: Rc<RefCell<Vec<usize>>> = Default::default();
     let mut ids: Vec<u64> = Vec::new();
+    let shared_ids: Rc<RefCell<Vec<u64>>> = Default::default();
     for op in body.split(" | ") {
         let t: Vec<&str> = op.split_whitespace().collect();
         let out = match t.as_slice() {
@@ -57,12 +59,14 @@ pub fn exec(body: &str, emit: &mut dyn FnMut(&str)) {
                 let k = ids.len();
                 let steps: Vec<String> = prog.split(',').map(String::from).collect();
                 let log = resumed.clone();
+                let known = shared_ids.clone();
                 let prio: i64 = prio.parse().unwrap();
                 let co = SchedulableCoroutine::new(Some(format!("sc{k}")), move |s, ()| {
                     log.borrow_mut().push(k);
                     for st in steps {
                         let (h, rest) = st.split_at(1);
                         match h {
+                            "K" => { let j: usize = rest.parse().unwrap(); let id = known.borrow().get(j).copied(); if let Some(id) = id { Scheduler::try_cancel_coroutine(id); } }
                             "S" => { s.suspend(); log.borrow_mut().push(k); }
                             "U" => { s.until(rest.parse().unwrap()); log.borrow_mut().push(k); }
                             "Y" => {
@@ -78,14 +82,14 @@ pub fn exec(body: &str, emit: &mut dyn FnMut(&str)) {
                                 }
                                 let _ = co.running();
                             }
-                            "P" => { if rest == "0" { panic!("boom"); } else { let z = rest.to_string(); panic!("boom{z}"); } }
+                            "P" => { if rest == "0" { panic!("boom"); } else { let z = rest.to_string(); let tail = "é".repeat(rest.parse::<usize>().unwrap_or(0).saturating_sub(1000)); if tail.is_empty() { panic!("boom{z}"); } else { panic!("boom{z}-{tail}"); } } }
                             "R" => return Some(rest.parse().unwrap()),
                             _ => {}
                         }
                     }
                     None
                 }, Some(128 * 1024), Some(prio)).expect("co");
-                match sched.submit_raw_co(co) { Ok(id) => { ids.push(id); format!("id{k}") } Err(_) => "suberr".into() }
+                match sched.submit_raw_co(co) { Ok(id) => { ids.push(id); shared_ids.borrow_mut().push(id); format!("id{k}") } Err(_) => "suberr".into() }
             }
             ["pass"] => {
                 resumed.borrow_mut().clear();
